@@ -1574,6 +1574,27 @@ func (self *Fork) expandForkSplitInnerPart(
 			return nil, fmt.Errorf("%s is not ready", exp.GoString())
 		}
 		return getElement(obj, index)
+	case *syntax.MergeExp:
+		// The element of a merge over the forks of a call is the merged
+		// value for the fork of that call with the same index.
+		fork := make(ForkId, len(self.forkId), len(self.forkId)+1)
+		copy(fork, self.forkId)
+		fork = append(fork, &ForkSourcePart{
+			Split: &syntax.SplitExp{
+				Value:  &syntax.MergeExp{MergeOver: exp.MergeOver},
+				Call:   exp.GetCall(),
+				Source: exp.MergeOver,
+			},
+			Id: index,
+		})
+		ready, obj, err := self.node.top.resolve(exp.Value, nil, fork, readSizeLimit)
+		if err != nil {
+			return nil, err
+		}
+		if !ready {
+			return nil, fmt.Errorf("%s is not ready", exp.GoString())
+		}
+		return obj, nil
 	}
 	return nil, fmt.Errorf(
 		"invalid source %s for undetermined %s (computing forks for %s)",
@@ -1594,7 +1615,19 @@ func (self *Fork) expandForkFromRef(must bool, i int,
 	if bNode != self.node {
 		bNode.expandForks(must)
 	}
-	if parts := self.getUnmatchedForkParts(bNode); len(parts) > 0 {
+	parts := self.getUnmatchedForkParts(bNode)
+	fixedRef := false
+	if len(parts) > 0 {
+		if idx, ok := ref.Forks[parts[0].Split.Call]; ok &&
+			idx != nil && idx.IndexSource() == nil {
+			// The reference is to one specific fork of the bound
+			// node, so this is a map over the collection which
+			// that fork returned, not over the forks of the node.
+			parts = nil
+			fixedRef = true
+		}
+	}
+	if len(parts) > 0 {
 		flen := len(self.forkId)
 		if flen == 0 {
 			panic("No forks to expand parts into")
@@ -1625,6 +1658,13 @@ func (self *Fork) expandForkFromRef(must bool, i int,
 		return result, nil
 	}
 	matchedForks := bNode.matchForks(self.forkId)
+	if fixedRef {
+		f, err := bNode.matchFork(ref.Forks, self.forkId)
+		if err != nil {
+			return nil, err
+		}
+		matchedForks = []*Fork{f}
+	}
 	if len(matchedForks) != 1 {
 		return nil, fmt.Errorf(
 			"fork %s matched %d out of %d forks of %s, need exactly 1",
